@@ -90,9 +90,27 @@ const (
 	avoidJudgingAfterHWFallback = true
 )
 
+// c11Collide: two cursor ids whose cursor keys on ("s", 0) have the same CRC-32, the hash that picks the cursors
+// partition of a key (found offline by a birthday search over 92 000 pseudo-random ids). In the
+// programs with parameter "collide" they stand in for id0 and id1: two cursors that any structure indexed by the
+// hash alone cannot tell apart.
+var (
+	c11Collide   = [2]string{"cb45ccbaba6af72bc", "c8f91d1a85b177b20"}
+	c11CollideOn bool
+)
+
+func c11CollideIDs() [2]string {
+	// (if the tree's hasher is no longer CRC-32 they are simply two more ids)
+	return c11Collide
+}
+
 // c11Key maps a hot key index to the cursor triple.
 func c11Key(k int) (id, stream string, part int32) {
-	return fmt.Sprintf("id%d", k&1), []string{"s", "t"}[(k>>1)&1], int32((k >> 2) & 1)
+	id = fmt.Sprintf("id%d", k&1)
+	if c11CollideOn {
+		id = c11CollideIDs()[k&1]
+	}
+	return id, []string{"s", "t"}[(k>>1)&1], int32((k >> 2) & 1)
 }
 
 // c11Ctx: 0-69 the usual 5 s deadline, 70-84 no deadline at all, 85-99 a deadline of 10-50 ms.
@@ -144,6 +162,11 @@ func genC11(r *simrt.Rand, tier string, idx int) *hx.Program {
 	if r.Intn(3) == 0 {
 		// neighbours: the triples that differ from the first one in exactly one component
 		palette = []int64{palette[0], palette[0] ^ 1, palette[0] ^ 2, palette[0] ^ 4}
+	}
+	if r.Intn(6) == 0 {
+		// the first two keys are two cursors whose keys collide under the partitioning hash
+		p.P["collide"] = 1
+		palette = append([]int64{0, 1}, palette...)
 	}
 	key := func() int64 { return palette[r.Intn(len(palette))] }
 	ctxMode := func() int64 {
@@ -570,6 +593,7 @@ func c11ByClient(prog *hx.Program) (order []string, byClient map[string][]hx.Op)
 }
 
 func execC11(t *testing.T, prog *hx.Program, dec *simrt.Decider, verbose bool) *hx.Outcome {
+	c11CollideOn = prog.Param("collide", 0) == 1
 	if prog.Param("cluster", 0) == 1 {
 		return execC11Cluster(t, prog, dec, verbose)
 	}
